@@ -15,7 +15,7 @@ def run(ctx):
                "library's coset enumeration (C11) and validated as an action here",
                "infinite groups: 'same group' is decided through abelianisation and the number of index-2 classes, as the statement says")
     ev = ctx.work / "events.ndjson"
-    ctx.dsv("C13", "drive", "--out", ev, "--maxsym", 3 if ctx.quick else 4, "--tables", 6 if ctx.quick else 16, timeout=7200)
+    ctx.dsv("C13", "drive", "--out", ev, "--maxsym", 3 if ctx.quick else 4, "--tables", 6 if ctx.quick else 16, "--anyk", 3 if ctx.quick else 4, timeout=7200)
     for ln in open(ev):
         e = json.loads(ln)
         t = e.get("table") or e.get("in") or e.get("a")
